@@ -8,7 +8,7 @@ in concrete mode the scripted values are returned by the same code.
 
 An optional fault schedule turns every objective call into a symbolic 4-way choice
 (ok / TimeoutError / RuntimeError / other exception)."""
-from symx import core, ops
+from symx import core, ops, stubs
 from symx.ops import And, Implies
 
 
@@ -23,6 +23,8 @@ def make_problem(dim, criteria, n_constraints=0, bounds=None, tols=None, extra_p
     """One Problem object per harness (its constructor creates a temp dir + atexit hook);
     mutable fields are reset per path by reset()."""
     from artap.problem import Problem
+    import artap.individual as _IND
+    stubs.install((_IND, 'np', stubs.numpy_shim))      # np.asarray / np.round on cost arrays keep proxies
 
     class HarnessProblem(Problem):
         def set(self, **kw):
@@ -70,6 +72,7 @@ class Oracle(object):
         self.nfault = 0
         self.fault_kinds = 4
         self.fault_filter = None     # optional predicate(individual): may this call fail?
+        self.return_array = False
 
     def _congruent(self, prev_calls, vec, vals):
         ctx = self.ctx
@@ -98,6 +101,10 @@ class Oracle(object):
         vals = [ctx.real('F%d_call%d' % (k, j)) for k in range(self.n_obj)]
         self._congruent([(v, x) for v, x, f in self.calls], vec, vals)
         self.calls.append((vec, vals, 'ok'))
+        if getattr(self, 'return_array', False):
+            # a user objective that returns its costs as a numpy array (object array of proxies / float array in replays)
+            import numpy
+            return numpy.array(list(vals), dtype=object if ctx.symbolic else float)
         return list(vals)
 
     def constraints(self, x):
